@@ -19,8 +19,24 @@ def main():
         mod.run(ctx)
     except ShardAbort:
         ctx.note("shard aborted after repeated case timeouts")
-    except BaseException:
+    except BaseException as e:
         traceback.print_exc()
+        # safety net: an exception that escaped a driver and was raised from inside the code under test is a finding
+        # about that code (the driver only feeds it inputs the property quantifies over), not a reason to lose the shard
+        import os
+
+        repo = os.path.realpath(os.environ.get("VERIF_REPO", "/repo"))
+        frames = traceback.extract_tb(e.__traceback__)
+        inner = frames[-1] if frames else None
+        in_repo = [f for f in frames if os.path.realpath(f.filename).startswith(repo + os.sep)]
+        if isinstance(e, Exception) and in_repo and inner is not None and not os.path.realpath(inner.filename).startswith(os.path.realpath(boot.HOME) + os.sep):
+            site = in_repo[-1]
+            ctx.violation(f"uncaught:{type(e).__name__}:{os.path.basename(site.filename)}:{site.name}",
+                          f"the code under test raised {e!r} (escaped the driver; the rest of this shard's workload was not run)",
+                          {"case": ctx.current_case, "traceback": traceback.format_exc()[-1500:]})
+            ctx.count("shard_stopped_by_exception_in_repo")
+            ctx.dump(out)
+            return
         ctx.dump(out + ".partial")
         sys.exit(3)
     ctx.dump(out)
